@@ -25,6 +25,7 @@ COUNTS = {
     "wrecv-long": (2, 10),
     "win": (6000, 100000),
     "cfg": (3000, 60000),
+    "srv": (500, 12000),
 }
 
 def nontrivial_rule(suite):
@@ -36,6 +37,7 @@ def nontrivial_rule(suite):
         "wrecv": "distinct scripts in which the worker performed at least one receive and one send",
         "wrecv-long": "distinct scripts (each > 65 000 blocks)",
         "win": "distinct operation sequences with at least two operations",
+        "srv": "distinct request histories in which the server sent at least one reply",
         "cfg": "distinct argument-vector families (setting groups x 5 key-order-preserving orders) with at least two groups",
     }.get(suite, "distinct cases")
 
@@ -51,21 +53,29 @@ def is_nontrivial(suite, case, impl):
         return True
     if suite == "cfg":
         return case.count("|") >= 1
+    if suite == "srv":
+        return "reply=0" in impl
     return True
 
 W_ASSUME = ["virtual clock hook (cfg rs_tftpd_verif) supplies time inside Worker::send_file; receive results are scripted",
             "regular-file reads are short only at end of file; write_all writes everything or fails (OS contract)"]
 PROPS = {
     "C01": {"suites": ["wsend"], "monitor": True, "title": "download fidelity", "assumptions": W_ASSUME},
-    "C02": {"suites": ["wrecv"], "monitor": True, "title": "upload fidelity", "assumptions": W_ASSUME},
+    "C02": {"suites": ["wrecv", "srv"], "monitor": True, "title": "upload fidelity", "assumptions": W_ASSUME},
+    "C03": {"suites": ["srv"], "monitor": True, "title": "directory confinement",
+            "assumptions": ["no symbolic links inside the served directories; Unix path branch", "loopback UDP delivers the sequential request histories"]},
+    "C05": {"suites": ["srv"], "monitor": True, "title": "listener availability",
+            "assumptions": ["OS resource exhaustion (threads, descriptors, memory growth) is outside the model", "loopback UDP"]},
+    "C06": {"suites": ["srv"], "monitor": True, "title": "access policy", "assumptions": ["Path::exists as modelled by the POSIX tree walk; loopback UDP"]},
     "C07": {"suites": ["wsend", "wrecv"], "monitor": True, "title": "termination", "assumptions": W_ASSUME},
     "C08": {"suites": ["wsend", "wrecv"], "monitor": True, "title": "window flow control", "assumptions": W_ASSUME},
+    "C09": {"suites": ["srv"], "monitor": True, "title": "option negotiation", "assumptions": ["loopback UDP; retransmission interval not measured in the quick tier"]},
     "C10": {"suites": ["codec-dec"], "monitor": True,
             "title": "decoder totality"},
     "C11": {"suites": ["codec-enc", "codec-dec"], "monitor": True,
             "title": "codec round trip and wire layout"},
     "C15": {"suites": ["wsend-long", "wrecv-long"], "monitor": True, "title": "block-number wrap-around", "assumptions": W_ASSUME},
-    "C16": {"suites": ["wsend", "wrecv", "cfg"], "monitor": True, "title": "duplicate-packets mode", "assumptions": W_ASSUME},
+    "C16": {"suites": ["wsend", "wrecv", "cfg", "srv"], "monitor": True, "title": "duplicate-packets mode", "assumptions": W_ASSUME},
     "C17": {"suites": ["cfg"], "monitor": True, "title": "command-line configuration",
             "assumptions": ["Path::exists and IpAddr::from_str are oracles: evaluated by the harness on every token and handed to the model",
                             "-h / --help exits the process and is not exercised in-process"]},
